@@ -92,6 +92,7 @@ type Engine struct {
 	nq       int
 	counted  map[string]string
 	immArr   map[string]bool
+	rawDone  bool
 }
 
 func newEngine(w *World, top *ssa.Function) *Engine {
